@@ -202,6 +202,12 @@ fn access(entry: &str, data: &[u8], re: bool) -> bool {
         }).is_ok(),
         "sigmsg" | "sigmsgr" => SignedMessage::decode(b, entry == "sigmsg").map(|m| {
             let _ = (m.content_type().as_ref().len(), m.content().to_bytes().len());
+            // validation builds the signed-attribute value again before it looks at the signature
+            static KEY: std::sync::OnceLock<Option<PublicKey>> = std::sync::OnceLock::new();
+            if let Some(k) = KEY.get_or_init(|| std::fs::read("/repo/test-data/crypto/rsa-key.public.der").ok()
+                .and_then(|b| PublicKey::decode(Bytes::from(b)).ok())) {
+                let _ = m.validate_at(k, crate::c01::time(crate::c01::T0));
+            }
             if re { let _ = m.to_captured().len(); }
         }).is_ok(),
         _ => false,
@@ -484,6 +490,11 @@ pub fn seeds(pool: &Pool) -> Vec<(&'static str, Vec<u8>)> {
     let sm = SignedMessage::create(Bytes::from_static(b"<msg/>"), Validity::new(crate::c01::time(1_700_000_000), crate::c01::time(1_800_000_000)),
         &pool.keys[0].id, &pool.signer).unwrap();
     v.push(("sigmsg", sm.to_captured().into_bytes().to_vec()));
+    // the same message with an unknown signed attribute that brings the attribute value to the largest sizes
+    // the reader admits (65535 octets) and just around it
+    for total in [65534usize, 65535, 65536, 255, 256] {
+        if let Some(d) = pad_signed_attrs(sm.to_captured().as_slice(), total) { v.push(("sigmsg", d)); }
+    }
     let _ = PublicKeyFormat::Rsa;
     // captured files of the repository
     for (entry, path) in [("cert", "repository/ta.cer"), ("cert", "repository/ca1.cer"), ("cert", "repository/router.cer"),
@@ -502,6 +513,30 @@ pub fn seeds(pool: &Pool) -> Vec<(&'static str, Vec<u8>)> {
         for p in names.into_iter().take(4) { if let Ok(b) = std::fs::read(&p) { v.push(("sigmsg", b)); } }
     }
     v
+}
+
+/// re-writes a CMS so that the content of the signed attributes `[0]` has exactly `total` octets, by adding one
+/// attribute with an unknown OID; every enclosing length is written again
+fn pad_signed_attrs(cms: &[u8], total: usize) -> Option<Vec<u8>> {
+    let mut nodes = der::parse_nodes(cms)?;
+    {
+        let sd = nodes.get_mut(0)?.kids.as_mut()?.get_mut(1)?.kids.as_mut()?.get_mut(0)?.kids.as_mut()?;
+        let infos = sd.last_mut()?.kids.as_mut()?;
+        let si = infos.get_mut(0)?.kids.as_mut()?;
+        let attrs = si.iter_mut().find(|n| n.tag == 0xA0)?;
+        let have = der::encode_nodes(attrs.kids.as_ref()?).len();
+        // SEQUENCE { OID(10 octets content), SET { OCTET STRING pad } }: search the pad length that fits
+        let oid = der::oid(&[1, 3, 6, 1, 4, 1, 99999, 77]);
+        let mut fit = None;
+        for pad in 0..(total.saturating_sub(have) + 1) {
+            let a = der::seq(&[oid.clone(), der::set_raw(&[der::octets(&vec![0x5a; pad])])]);
+            if have + a.len() == total { fit = Some(a); break }
+            if have + a.len() > total { break }
+        }
+        let a = fit?;
+        attrs.kids.as_mut()?.push(der::parse_nodes(&a)?.remove(0));
+    }
+    Some(der::encode_nodes(&nodes))
 }
 
 trait FromStrChecked: Sized { fn from_str_checked(s: &str) -> Self; }
